@@ -508,22 +508,6 @@ Proof.
   destruct (lsz <? _); [apply prsim_fail|apply prsim_set_off].
 Qed.
 
-Lemma prsim_read_tail n :
-  prsim (fun s1 =>
-      let payload := pr_page_size s1 - CHECKSUM_SIZE in
-      let page_offset := pr_off s1 mod payload in
-      let page_readable := payload - page_offset in
-      let read_size := N.min n page_readable in
-      bind (pr_set_off (pr_off s1 + read_size))
-           (fun _ => ret (slice page_offset read_size (pr_buf s1))) s1).
-Proof.
-  apply (prsim_rest _ (fun ps phy lsz pgs off pn buf =>
-      bind (pr_set_off (off + N.min n (ps - CHECKSUM_SIZE - off mod (ps - CHECKSUM_SIZE))))
-           (fun _ => ret (slice (off mod (ps - CHECKSUM_SIZE))
-                                (N.min n (ps - CHECKSUM_SIZE - off mod (ps - CHECKSUM_SIZE))) buf)))).
-  intros. prsim_tac.
-Qed.
-
 Lemma prsim_read n : prsim (pr_read n).
 Proof.
   unfold pr_read.
